@@ -12,8 +12,11 @@ const (
 	verifPopCancelBroadcastDone
 	verifSeqnoBeforeCommit
 	verifLoopRequest // the event loop has received an API request and not yet handled it
+	verifPopTake     // a stream writer is about to take the next RPC out of its queue
 )
 
 func verifYield(int) {}
 
 func verifObserveSendRPC(peer.ID, *RPC) {}
+
+func verifYieldQueue(*rpcQueue, int) {}
